@@ -178,6 +178,8 @@ func runC03(c *Ctx) {
 	}
 
 	lockRules(c)
+	// at most one vote per height/round/type also across a crash: what was signed must be on disk before it is acted on
+	walAheadRules(c)
 
 	// ---- signVote: signed content ------------------------------------------------------------------
 	if fn := c.Fn("consensus", "ConsensusState", "signVote"); fn != nil {
